@@ -23,6 +23,8 @@ Violation keys:
   C12:<function>:unexpected-exception:<Type>-<message slug>   (<function> = innermost library function)
   C12:<reader>:alias:<key>=<alias>:<rejected|differs>
   C12:<reader>:default:<key>
+  C12:<saver>:files-interfere:<kind>.<field>     an object saved next to others (other names, same directory) comes
+                                                 back different
 """
 import contextlib
 import copy
@@ -925,6 +927,119 @@ def check_default(cx, case, out):
             return
 
 
+
+# =====================================================================================================
+# file names: several objects saved next to each other must not interfere
+# =====================================================================================================
+# (directory, name given to save_*).  Names with and without .json, with one or two dots inside the stem, names
+# that only differ after a dot, the same name in different directories, directories with a dot.
+NAME_TARGETS = [("d", "run"), ("d", "run.json"), ("d", "run.1"), ("d", "run.1.json"), ("d", "run.10"),
+                ("d", "run.1.5"), ("d", "sweep_kf_0.1"), ("d", "sweep_kf_0.25"), ("d", "a.b.c"), ("d", "a.b.d"),
+                ("e", "run"), ("e", "run.1"), ("v1.0", "run"), ("v1.0", "run.1"), ("v1.1", "run")]
+NAME_SAVERS = ["rdtrajectory", "rdnetwork", "rdspace", "rdsystem", "rdscript"]
+
+
+_TINY = {}
+
+
+def _tiny(kind, k):
+    """small object number k of a kind (built once per process; saving does not modify it)"""
+    if (kind, k) not in _TINY:
+        _TINY[(kind, k)] = _tiny_build(kind, k)
+    return _TINY[(kind, k)]
+
+
+def _tiny_build(kind, k):
+    """all objects of a kind have the same shape, every quantity differs with k"""
+    net = RDNetwork([Species("A", density=3 + k, D=1 + k), Species("B", density=1)],
+                    [Reaction("A -> B", kf=2 + k, kr=0.5)])
+    if kind == "rdnetwork":
+        return net
+    space = RDGridSpace(w=2, h=1, d=1, cell_env=0, cell_vol=1 + k)
+    if kind == "rdspace":
+        return space
+    system = RDSystem(net, space)
+    if kind == "rdsystem":
+        return system
+    script = RDScript(system, [0, 1, 2 + k], time_step=0.25, rng_seed=5 + k)
+    if kind == "rdscript":
+        return script
+    return RDTrajectory(UnitArray([100 * (k + 1) + j + 0.5 for j in range(12)], "molecule"),
+                        UnitArray([0, 1, 2 + k], "s"), system, script=script,
+                        engine_description="engine %d" % k, engine_option="euler")
+
+
+def _destination(kind, path):
+    """the JSON file a save_* call writes, as documented: save_rdtrajectory adds .json when it is absent, the
+    other savers write exactly the given path"""
+    if kind == "rdtrajectory" and not path.endswith(".json"):
+        return path + ".json"
+    return path
+
+
+def check_names(cx, case, tmp, out):
+    kind = case["kind"]
+    save, load = SAVE[kind], LOAD[kind]
+    # one directory tree per scratch directory, emptied (files only) after every case: removing directories is
+    # by far the slowest operation on this file system
+    root = os.path.join(tmp, "names-root")
+    other = os.path.join(tmp, "names-elsewhere")
+    dirs = [os.path.join(root, dname) for dname in sorted(set(t[0] for t in NAME_TARGETS))]
+    if not os.path.isdir(other):
+        os.makedirs(other)
+        for dpath in dirs:
+            os.makedirs(dpath)
+    try:
+        _check_names(cx, case, root, other, out)
+    finally:
+        for dpath in dirs + [other, root]:
+            for fn in os.listdir(dpath):
+                fp = os.path.join(dpath, fn)
+                if os.path.isfile(fp):
+                    os.unlink(fp)
+
+
+def _check_names(cx, case, root, other, out):
+    kind = case["kind"]
+    save, load = SAVE[kind], LOAD[kind]
+    ctx = "[%s names %s separate_data=%s paths=%s] " % (kind, case["targets"], case["sep"], case["modes"])
+    last = {}                       # destination -> (index of the last object saved there, relative path, mode)
+    order = []
+    objs = []
+    for i, ((dname, name), sep, mode) in enumerate(zip(case["targets"], case["sep"], case["modes"])):
+        obj = _tiny(kind, i)
+        objs.append(obj)
+        kw = {"separate_data": sep} if kind == "rdtrajectory" else {}
+        rel = os.path.join(dname, name)
+        if mode == "rel":
+            with _cwd(root):
+                _call(cx, SAVE_NAME[kind], save, obj, rel, **kw)
+        else:
+            with _cwd(other):
+                _call(cx, SAVE_NAME[kind], save, obj, os.path.join(root, rel), **kw)
+        dest = _destination(kind, rel)
+        if dest in last:
+            cx.count("name_cases_overwriting_a_destination")
+        else:
+            order.append(dest)
+        last[dest] = (i, mode)
+    cx.count("files_written", len(case["targets"]))
+    for dest in order:
+        i, mode = last[dest]
+        if mode == "rel":
+            with _cwd(root):
+                y = _call(cx, load.__name__, load, dest)
+        else:
+            with _cwd(other):
+                y = _call(cx, load.__name__, load, os.path.join(root, dest))
+        tmp_out = []
+        if not _phys(cx, objs[i], y, tmp_out, ""):
+            for k, w in tmp_out:
+                parts = k.split(":")          # C12:<kind>:changed:<field>
+                out.append(("%s:%s:files-interfere:%s.%s" % (PID, SAVE_NAME[kind], parts[1], parts[3]),
+                            "%sobject #%d saved as %r came back different after the other saves: %s"
+                            % (ctx, i, case["targets"][i], w)))
+
 # =====================================================================================================
 # one case
 # =====================================================================================================
@@ -946,6 +1061,14 @@ def _check(case, tmp=None):
             check_alias(cx, case, out)
         elif sub == "default":
             check_default(cx, case, out)
+        elif sub == "names":
+            if tmp is None:
+                own = tempfile.mkdtemp(dir=TMP_PARENT, prefix="c12-case-")
+                tmp = own
+            try:
+                check_names(cx, case, tmp, out)
+            except LibFail as lf:
+                out.append((lf.key(), lf.what("[%s names %s] " % (case["kind"], case["targets"])) + "\n" + lf.tail))
         else:
             kind, route = case["kind"], case["route"]
             needs_tmp = route.split(":")[0] in ("abs", "abs-noext", "rel", "multi", "ext")
@@ -1370,6 +1493,31 @@ def _spaces(tier, seed):
                            "route": "multi:npy:%s:keep%s" % (how, ":text" if text else "")}
     sp.append(("multi-file trajectories (nested script -> system.json, system -> network / space / state / chemostats files, data.npy; sample times inline or external): 9 unit-system pairs x 3 trajectories x {absolute, relative} x {inline, external t_sample}",
                gen_traj_multi, 9 * 3 * 2 * 2, 12))
+
+    # file names ---------------------------------------------------------------------------------------
+    T = [list(t) for t in NAME_TARGETS]
+    pairs = [(a, b) for a in T for b in T if a != b]
+    same_dir = T[:6]
+    triples = [(a, b, c) for a in same_dir for b in same_dir for c in same_dir if a != b and b != c and a != c]
+    pmodes = [("abs", "abs"), ("rel", "rel"), ("abs", "rel")]
+    omodes = pmodes if thorough else [("rel", "rel")]
+
+    def gen_names():
+        for (a, b) in pairs:
+            for s1 in (True, False):
+                for s2 in (True, False):
+                    for m in pmodes:
+                        yield {"sub": "names", "kind": "rdtrajectory", "targets": [a, b], "sep": [s1, s2], "modes": list(m)}
+        for tr in triples:
+            for sdat in (True, False):
+                yield {"sub": "names", "kind": "rdtrajectory", "targets": list(tr), "sep": [sdat] * 3, "modes": ["abs"] * 3}
+        for kind in NAME_SAVERS[1:]:
+            for (a, b) in pairs:
+                for m in omodes:
+                    yield {"sub": "names", "kind": kind, "targets": [a, b], "sep": [True, True], "modes": list(m)}
+    sp.append(("file names: 2 different trajectories saved one after the other under every ordered pair of %d (directory, name) targets (with / without .json, dots inside the stem, names differing only after a dot, same name in other directories, dotted directories) x separate_data of each x {absolute, relative, mixed paths}, every ordered triple of 6 same-directory names x separate_data, and every ordered pair for save_rdnetwork / rdspace / rdsystem / rdscript x %d path modes; every destination is loaded back and compared with the last object saved there"
+               % (len(T), len(omodes)), gen_names,
+               len(pairs) * 4 * 3 + len(triples) * 2 + 4 * len(pairs) * len(omodes), 60))
 
     # aliases ------------------------------------------------------------------------------------------
     def gen_alias():
